@@ -128,7 +128,8 @@ def old_cases(draw):
         src = {"kind": draw(st.sampled_from(["pil", "file"])), "image": draw(gen.still_image(max_w=6, max_h=6))}
     ident = draw(gen.identity())
     if draw(st.booleans()):  # favour the identities whose quirks the style reacts to
-        rel = {"kitty": [["kitty", "0.20.0"], ["kitty", "0.25.0"], ["kitty", "0.26.5"], ["konsole", "22.04.0"]],
+        rel = {"kitty": [["kitty", "0.20.0"], ["kitty", "0.25.0"], ["kitty", "0.25.1"], ["kitty", "0.25.2"], ["kitty", "0.26.5"],
+                         ["konsole", "22.04.0"]],
                "iterm2": [["wezterm", "20230712"], ["konsole", "22.04.0"], ["iterm2", "3.4.19"]],
                "block": [["kitty", "0.26.5"], ["", ""]]}[style]
         ident = draw(st.sampled_from(rel))
